@@ -1,5 +1,6 @@
 import UgoVerif.VM.Invoke
 import UgoVerif.Gen.VmFields
+import UgoVerif.Proofs.InvokeShift
 /-
   C14 — calling a script function from Go (Invoker) equals calling it inside the script.
 
@@ -10,6 +11,10 @@ import UgoVerif.Gen.VmFields
 -/
 namespace UgoVerif.Props.C14
 open UgoVerif UgoVerif.Go UgoVerif.VM UgoVerif.Gen.VmFields
+open UgoVerif.Proofs.InvokeBind UgoVerif.Proofs.Shift UgoVerif.Proofs.InvokeShift UgoVerif.Props.C02
+
+set_option linter.unusedSimpArgs false
+set_option linter.unusedVariables false
 
 /-! ### acquire_complete (regenerated fact) -/
 
@@ -96,17 +101,102 @@ def callbindSpec (np nl : Nat) (variadic : Bool) (args : List V) (arr : V) : Lis
   if variadic then args.take (np - 1) ++ [arr] ++ List.replicate (nl - np) V.undefined
   else args ++ List.replicate (nl - np) V.undefined
 
-/-- the argument counts both entry points accept (property text: others are not compared) -/
-def accepted (np : Nat) (variadic : Bool) (n : Nat) : Prop :=
-  if variadic then 1 ≤ np ∧ np - 1 ≤ n else n = np
+/- the argument counts both entry points accept (property text: others are not compared):
+   `accepted np variadic n` (Proofs/InvokeBind) = `if variadic then 1 ≤ np ∧ np - 1 ≤ n else n = np` -/
 
-/-- `initLocals_eq_callbind` (statement; part of `C14_full`, NOT proved in general): for every
-    accepted argument list both entry points leave the same values in the callee's `NumLocals`
-    slots.  Instances are checked below by evaluation; the lock-step `inv` requests compare the
-    two monadic implementations on every generated call. -/
-def initLocals_eq_callbind : Prop :=
-  ∀ (np nl : Nat) (variadic : Bool) (args : List V) (arr : V), np ≤ nl → accepted np variadic args.length →
-    initLocalsSpec np nl variadic args arr = callbindSpec np nl variadic args arr
+theorem goCopy_take_lt (locals args : List V) (n : Nat) (h1 : n ≤ args.length) (h2 : n ≤ locals.length) :
+    goCopy locals (args.take n) = args.take n ++ locals.drop n := by
+  unfold goCopy
+  rw [List.take_of_length_le (by simp; omega)]
+  simp [List.length_take, Nat.min_eq_left h1]
+
+/-- **bindSpecs_agree** (proved): over the two statement-by-statement list specifications of the
+    binding code, both entry points leave the same values in the callee's `NumLocals` slots for
+    every accepted argument list (`arr` = the variadic array). -/
+theorem bindSpecs_agree (np nl : Nat) (variadic : Bool) (args : List V) (arr : V) (hnl : np ≤ nl)
+    (hacc : accepted np variadic args.length) :
+    initLocalsSpec np nl variadic args arr = callbindSpec np nl variadic args arr := by
+  unfold initLocalsSpec callbindSpec
+  cases variadic with
+  | false =>
+    simp only [accepted, Bool.false_eq_true, if_false] at hacc
+    simp only [Bool.false_eq_true, if_false]
+    by_cases h0 : np = 0
+    · subst h0
+      have : args = [] := List.eq_nil_of_length_eq_zero hacc
+      simp [this]
+    · have hlt : ¬ args.length < np := by omega
+      simp only [h0, hlt, if_false]
+      rw [goCopy_take_lt _ _ _ (by omega) (by simp; omega)]
+      apply List.ext_getElem?
+      intro i
+      simp only [List.getElem?_append, List.getElem?_take, List.getElem?_drop, List.length_take, List.getElem?_set,
+        List.getElem?_replicate, List.length_replicate]
+      by_cases hi : i < np - 1
+      · have h1 : i < min (np - 1) args.length := by omega
+        have h2 : i < args.length := by omega
+        simp [h1, hi, h2]
+      · have h1 : ¬ i < min (np - 1) args.length := by omega
+        simp only [h1, if_false]
+        have e1 : min (np - 1) args.length = np - 1 := by omega
+        rw [e1]
+        by_cases hie : i = np - 1
+        · subst hie
+          have h3 : np - 1 < args.length := by omega
+          have h4 : np - 1 < nl := by omega
+          simp [h3, h4, List.getD, List.getElem?_eq_getElem h3]
+        · have h3 : ¬ i < args.length := by omega
+          have h5 : ¬ np - 1 = np - 1 + (i - (np - 1)) := by omega
+          simp only [h3, if_false, h5]
+          by_cases h6 : i < nl
+          · have : np - 1 + (i - (np - 1)) < nl := by omega
+            have h7 : i - args.length < nl - np := by omega
+            simp [this, h7]
+          · have : ¬ np - 1 + (i - (np - 1)) < nl := by omega
+            have h7 : ¬ i - args.length < nl - np := by omega
+            simp [this, h7]
+  | true =>
+    simp only [accepted, if_true] at hacc
+    obtain ⟨h1p, hle⟩ := hacc
+    have h0 : ¬ np = 0 := by omega
+    simp only [h0, if_false, if_true]
+    have key : ∀ (src : List V), src = args.take (np - 1) →
+        goCopy ((List.replicate nl V.undefined).set (np - 1) arr) src =
+          args.take (np - 1) ++ [arr] ++ List.replicate (nl - np) V.undefined := by
+      intro src hsrc
+      subst hsrc
+      rw [goCopy_take_lt _ _ _ (by omega) (by simp; omega)]
+      apply List.ext_getElem?
+      intro i
+      simp only [List.getElem?_append, List.getElem?_take, List.getElem?_drop, List.length_take, List.getElem?_set,
+        List.getElem?_replicate, List.length_replicate, List.length_append, List.length_cons, List.length_nil]
+      have e1 : min (np - 1) args.length = np - 1 := by omega
+      rw [e1]
+      by_cases hi : i < np - 1
+      · have h2 : i < args.length := by omega
+        have h3 : i < np - 1 + (0 + 1) := by omega
+        simp [hi, h2, h3]
+      · simp only [hi, if_false]
+        by_cases hie : i = np - 1
+        · subst hie
+          have h4 : np - 1 < nl := by omega
+          simp [h4]
+        · have h3 : ¬ i < np - 1 + (0 + 1) := by omega
+          have h5 : ¬ np - 1 = np - 1 + (i - (np - 1)) := by omega
+          simp only [h3, if_false, h5]
+          by_cases h6 : i < nl
+          · have : np - 1 + (i - (np - 1)) < nl := by omega
+            have h7 : i - (np - 1 + (0 + 1)) < nl - np := by omega
+            simp [this, h7]
+          · have : ¬ np - 1 + (i - (np - 1)) < nl := by omega
+            have h7 : ¬ i - (np - 1 + (0 + 1)) < nl - np := by omega
+            simp [this, h7]
+    by_cases hlt : args.length < np
+    · simp only [hlt, if_true]
+      have : args = args.take (np - 1) := by rw [List.take_of_length_le (by omega)]
+      rw [key args this]
+    · simp only [hlt, if_false]
+      exact key _ rfl
 
 example : initLocalsSpec 2 4 false [.int 1, .int 2] (.arr 9 0 0) = callbindSpec 2 4 false [.int 1, .int 2] (.arr 9 0 0) := rfl
 example : initLocalsSpec 2 3 true [.int 1] (.arr 9 0 0) = callbindSpec 2 3 true [.int 1] (.arr 9 0 0) := rfl
@@ -154,17 +244,239 @@ def sameResult : InvRes → Except OpErr V → Prop
   | .error .stackOverflow, .error .stackOverflow => True
   | _, _ => False
 
+/-! ### `initLocals_eq_callbind`: the two MONADIC binders, slot by slot -/
+
+/-- **initLocals_eq_callbind.**  `c` is a child VM whose `Main` is the compiled function `fa`
+    (heap cell `.fn ci free`), `p` the parent with `args` on its operand stack, both over the same heap
+    and code memory.  For every accepted argument list (exactly `NumParams`, or at least
+    `NumParams - 1` when variadic) `initLocals args` on the child and `xOpCallCompiled fa (len args) 0`
+    on the parent both succeed, leave EQUAL heaps (the variadic array is one fresh cell at the same
+    address, holding exactly `args.drop (NumParams-1)`), and slot `j` of the child equals slot `bp + j`
+    of the parent for every `j < NumLocals`, both being `bindSlot`: the parameter's argument, the
+    variadic array, `undefined` for the other locals.  (Not covered: the self tail call, where
+    `xOpCallCompiled` reuses the caller's frame — hypothesis `hself`.) -/
+theorem initLocals_eq_callbind (c p : State) (fa ci : Nat) (free : Option (List Addr)) (args : List V)
+    (hfn : p.heap[fa]? = some (.fn ci free))
+    (hheap : c.heap = p.heap) (hcodes : c.codes = p.codes) (hmain : c.mainFn = fa)
+    (hszc : c.stack.size = stackSize) (hszp : p.stack.size = stackSize)
+    (hargs : argsOnStack p args.length = args)
+    (hacc : accepted (p.codes[ci]!).numParams (p.codes[ci]!).variadic args.length)
+    (hself : (p.frames[p.curFrame]!).fn ≠ some fa)
+    (hfi : 0 ≤ p.frameIndex ∧ p.frameIndex + 1 ≤ (frameSize : Int) - 1)
+    (hbp : 0 ≤ p.sp - args.length) (hsp : p.sp ≤ (stackSize : Int))
+    (hroom : p.sp - args.length + (p.codes[ci]!).numLocals ≤ (stackSize : Int))
+    (hnl : (p.codes[ci]!).numParams ≤ (p.codes[ci]!).numLocals) :
+    ∃ c' p', exec (initLocals args) c = (.ok (), c') ∧
+      exec (callCompiled fa args.length 0) p = (.ok (.ok ()), p') ∧
+      c'.heap = p'.heap ∧
+      c'.heap = bindHeap (p.codes[ci]!).numParams (p.codes[ci]!).variadic args p.heap ∧
+      ∀ j, j < (p.codes[ci]!).numLocals →
+        c'.stack[j]! = p'.stack[(p.sp - args.length).toNat + j]! ∧
+        c'.stack[j]! = bindSlot (p.codes[ci]!).numParams (p.codes[ci]!).variadic args p.heap.size j := by
+  have hcell : exec (fnCell fa) p = (.ok (p.codes[ci]!, free), p) := UgoVerif.Proofs.EvalLocals.exec_fnCell p fa ci free hfn
+  obtain ⟨stp, hp, _, hpslots, _⟩ :=
+    callCompiled_slots fa args p _ free hcell hargs hacc hself hfi hbp hsp hroom hnl hszp
+  have hfn1 : c.heap[c.mainFn]? = some (.fn ci free) := by rw [hmain, hheap]; exact hfn
+  have hnlS : (p.codes[ci]!).numLocals ≤ stackSize := by omega
+  obtain ⟨stc, hci, _, hcslots, _⟩ :=
+    initLocals_slots args c ci free hfn1 (by rw [hcodes]; exact hnl) (by rw [hcodes]; exact hnlS) hszc
+  rw [hcodes, hheap] at hci hcslots
+  refine ⟨_, _, hci, hp, rfl, rfl, ?_⟩
+  intro j hj
+  have e1 := getElem!_of_getElem? _ _ _ (hcslots j hj)
+  have e2 := getElem!_of_getElem? _ _ _ (hpslots j hj)
+  exact ⟨by show stc[j]! = stp[_]!; rw [e1, e2], e1⟩
+
+/-- **arity_rejected_lenient** (the REJECTED arities do NOT agree — by design, property text: "Go-side
+    calls with too few or too many arguments are lenient … and are not compared").  `Run` has no
+    argument check: `initLocals` succeeds for EVERY argument list (missing parameters are `undefined`,
+    surplus arguments are dropped — `bindSlot`), whereas `xOpCallCompiled` answers
+    `WrongNumberOfArgumentsError`.  Witness on the real code: `f := func(a, b) {…}`; `Invoke(1)` returns
+    `[1, undefined]`, `f(1)` throws `WrongNumberOfArgumentsError: want=2 got=1`. -/
+theorem arity_rejected_lenient (c p : State) (fa ci : Nat) (free : Option (List Addr)) (args : List V)
+    (hfn : p.heap[fa]? = some (.fn ci free))
+    (hheap : c.heap = p.heap) (hcodes : c.codes = p.codes) (hmain : c.mainFn = fa)
+    (hszc : c.stack.size = stackSize)
+    (hnl : (p.codes[ci]!).numParams ≤ (p.codes[ci]!).numLocals) (hnlS : (p.codes[ci]!).numLocals ≤ stackSize)
+    (hrej : ¬ accepted (p.codes[ci]!).numParams (p.codes[ci]!).variadic args.length)
+    (hnp : (p.codes[ci]!).variadic = true → 1 ≤ (p.codes[ci]!).numParams) :
+    (∃ c', exec (initLocals args) c = (.ok (), c') ∧ ∀ j, j < (p.codes[ci]!).numLocals →
+        c'.stack[j]! = bindSlot (p.codes[ci]!).numParams (p.codes[ci]!).variadic args p.heap.size j) ∧
+    (∃ m, exec (callCompiled fa args.length 0) p = (.ok (.error (.named "WrongNumberOfArgumentsError" m)), p)) := by
+  have hcell : exec (fnCell fa) p = (.ok (p.codes[ci]!, free), p) := UgoVerif.Proofs.EvalLocals.exec_fnCell p fa ci free hfn
+  have hfn1 : c.heap[c.mainFn]? = some (.fn ci free) := by rw [hmain, hheap]; exact hfn
+  obtain ⟨stc, hci, _, hcslots, _⟩ :=
+    initLocals_slots args c ci free hfn1 (by rw [hcodes]; exact hnl) (by rw [hcodes]; exact hnlS) hszc
+  rw [hcodes, hheap] at hci hcslots
+  refine ⟨⟨_, hci, fun j hj => getElem!_of_getElem? _ _ _ (hcslots j hj)⟩, ?_⟩
+  cases hv : (p.codes[ci]!).variadic with
+  | false =>
+    simp only [accepted, hv, Bool.false_eq_true, if_false] at hrej
+    exact ⟨_, callCompiled_fixed_arity_error fa args.length p _ free hcell hv (by omega)⟩
+  | true =>
+    simp only [accepted, hv, if_true] at hrej
+    have := hnp hv
+    exact ⟨_, callCompiled_variadic_arity_error fa args.length p _ free hcell hv (by omega)⟩
+
+/-- **prologue_eq_callbind.**  The whole entries: the child's `prologue` (`Run` up to the loop) and the
+    parent's `xOpCallCompiled` leave states related by the offset relation `ShB bp k NumLocals`
+    (Proofs/Shift.lean): same heap, code memory, constants, globals, module cache; `ip = -1` on both;
+    child frame 0 / base 0 / `sp = NumLocals` against parent frame k / base bp / `sp = bp + NumLocals`;
+    `child.stack[i] = parent.stack[bp+i]` for `i < NumLocals`. -/
+theorem prologue_eq_callbind (c p : State) (fa ci : Nat) (free : Option (List Addr)) (args : List V)
+    (hfn : p.heap[fa]? = some (.fn ci free))
+    (hheap : c.heap = p.heap) (hcodes : c.codes = p.codes) (hconsts : c.consts = p.consts)
+    (hmods : c.modules = p.modules) (hnm : c.numModules = p.numModules) (hmain : c.mainFn = fa)
+    (hfull : p.numModules ≤ p.modules.size) (hg : p.globals ≠ .nil) (herr : p.err = none)
+    (hshc : Shape c) (hshp : Shape p)
+    (hargs : argsOnStack p args.length = args)
+    (hacc : accepted (p.codes[ci]!).numParams (p.codes[ci]!).variadic args.length)
+    (hself : (p.frames[p.curFrame]!).fn ≠ some fa)
+    (hfi : 0 ≤ p.frameIndex ∧ p.frameIndex + 1 ≤ (frameSize : Int) - 1)
+    (hbp : 0 ≤ p.sp - args.length) (hsp : p.sp ≤ (stackSize : Int))
+    (hroom : p.sp - args.length + (p.codes[ci]!).numLocals ≤ (stackSize : Int))
+    (hnl : (p.codes[ci]!).numParams ≤ (p.codes[ci]!).numLocals) :
+    ∃ c' p', exec (prologue p.globals args) c = (.ok (), c') ∧
+      exec (callCompiled fa args.length 0) p = (.ok (.ok ()), p') ∧
+      ShB (p.sp - args.length).toNat p.frameIndex.toNat (p.codes[ci]!).numLocals c' p' :=
+  entries_shifted c p fa ci free args hfn hheap hcodes hconsts hmods hnm hmain hfull hg herr hshc hshp hargs hacc hself
+    hfi hbp hsp hroom hnl
+
+theorem emptyFrames_zero : (Array.replicate frameSize ({} : Frame))[0]! = {} := by
+  rw [getElem!_pos _ 0 (by simp [frameSize])]
+  simp
+
+/-- non-vacuity of `initLocals_eq_callbind` / `prologue_eq_callbind`: a VM inside `Run` about to call the
+    zero-parameter function at heap address 0, and a child for it -/
+def exP : State :=
+  { newState #[{ insts := #[], numParams := 0, numLocals := 0, variadic := false }] #[.fn 0 none] #[] 0 0 with
+    frameIndex := 1, globals := .undefined }
+
+example : ∃ c' p', exec (prologue exP.globals []) exP = (.ok (), c') ∧
+    exec (callCompiled 0 (([] : List V).length) 0) exP = (.ok (.ok ()), p') ∧ ShB 0 1 0 c' p' := by
+  have hfr : (exP.frames[exP.curFrame]!).fn ≠ some 0 := by
+    show (Array.replicate frameSize ({} : Frame))[0]!.fn ≠ some 0
+    rw [emptyFrames_zero]; simp
+  exact prologue_eq_callbind exP exP 0 0 none [] rfl rfl rfl rfl rfl rfl rfl (by decide) (by simp [exP]) rfl
+    ⟨by simp [exP, newState], by simp [exP, newState, emptyFrames]⟩ ⟨by simp [exP, newState], by simp [exP, newState, emptyFrames]⟩
+    (by simp [argsOnStack]) (by simp [accepted, exP, newState]) hfr (by decide) (by decide) (by decide) (by decide) (by decide)
+
+/-- what `_acquire` gives `prologue_eq_callbind`: the child acquired for `fa` from a root whose
+    constants, module count and module cache are the caller's satisfies its hypotheses on `c` -/
+theorem acquire_meets_prologue (root caller child : State) (fa : Addr)
+    (hc : root.consts = caller.consts) (hm : root.modules = caller.modules) (hn : root.numModules = caller.numModules) :
+    let c := acquireFrom root caller child fa
+    c.heap = caller.heap ∧ c.codes = caller.codes ∧ c.consts = caller.consts ∧ c.modules = caller.modules ∧
+    c.numModules = caller.numModules ∧ c.mainFn = fa := by
+  simp [acquireFrom, hc, hm, hn]
+
+/-! ### `frame_shift_partial` -/
+
+/-- **frame_shift_partial.**  One instruction of the child (frame 0, base 0) and one instruction of the
+    parent inside the callee's frame (frame k, base bp) from `ShB`-related states, when the fetched
+    opcode is one of the 36 `coveredOps` (all but CALL, CALLNAME, RETURN, THROW, SETUPTRY, SETUPCATCH,
+    SETUPFINALLY, FINALIZER) and, for GETLOCAL / SETLOCAL / GETLOCALPTR, its operand is below
+    `L = NumLocals`, for MAP its operand is even (`StepOk`): if both `step`s end normally then EITHER both continue (`.next`)
+    and the states are `ShB`-related again, OR the child's loop returns with `vm.err` set — an uGO
+    error raised by the instruction, which nobody in the (handler-free) callee catches.  No claim when a
+    side ends with a Go panic or leaves the modelled subset: the child has `bp` more stack slots and
+    `k` more frames than the callee's frame in the parent, so resource panics cannot coincide. -/
+theorem frame_shift_partial (F : FloatOps) (bp k L : Nat) (s t : State) (h : ShB bp k L s t) (hok : StepOk L s)
+    (r r' : Ctl) (s' t' : State) (h1 : exec (step F) s = (.ok r, s')) (h2 : exec (step F) t = (.ok r', t')) :
+    (r = .next ∧ r' = .next ∧ ShB bp k L s' t') ∨ (r = .ret ∧ s'.err ≠ none) :=
+  UgoVerif.Proofs.Shift.frame_shift_partial F s t ⟨h, hok⟩ r s' r' t' h1 h2
+
+/-- **steps_shift_partial.**  `frame_shift_partial` iterated over any number `n` of instructions
+    (`runSteps`: the loop body repeated; `CoveredRun`: every instruction the child executes on the way
+    satisfies `StepOk`): if neither VM panicked or left the model, both are still running in `ShB`-related
+    states — equal heap, globals, module cache, `child.stack[i] = parent.stack[bp+i]` — or the child has
+    stopped with `vm.err` set. -/
+theorem steps_shift_partial (F : FloatOps) (bp k L n : Nat) (s t : State) (h : ShB bp k L s t)
+    (hc : CoveredRun F L n s) (r r' : Ctl) (s' t' : State)
+    (h1 : runSteps F n s = some (r, s')) (h2 : runSteps F n t = some (r', t')) :
+    (r = .next ∧ r' = .next ∧ ShB bp k L s' t') ∨ (r = .ret ∧ s'.err ≠ none) :=
+  UgoVerif.Proofs.Shift.steps_shift_partial F n s t h hc r s' r' t' h1 h2
+
+/-- **return_shift.**  The RETURN of the callee from `ShB`-related states (`bp ≥ 1`, `k ≥ 1`; the fetched
+    opcode is RETURN): if both `step`s end normally, the child's loop returns (`.ret`, `vm.err` unset,
+    `frameIndex = 1`) and the parent continues in its caller's frame (`frameIndex = k`, `sp = bp`); heap,
+    globals and module cache are equal; and the slot the child's `Run` reads its result from,
+    `child.stack[sp-1]`, holds the same value as the slot where the parent's caller finds the call's
+    value, `parent.stack[sp-1]` (= the callee's slot `bp-1`). -/
+theorem return_shift (F : FloatOps) (bp k L : Nat) (hk : 1 ≤ k) (hbp : 1 ≤ bp) (s t : State) (h : ShB bp k L s t)
+    (hop : ∀ op s1, exec fetchOp s = (.ok op, s1) → op = OpReturn)
+    (r r' : Ctl) (s' t' : State) (h1 : exec (step F) s = (.ok r, s')) (h2 : exec (step F) t = (.ok r', t')) :
+    r = .ret ∧ r' = .next ∧ s'.heap = t'.heap ∧ s'.globals = t'.globals ∧ s'.modules = t'.modules ∧
+    s'.err = none ∧ t'.err = none ∧ s'.frameIndex = 1 ∧ t'.frameIndex = k ∧ t'.sp = bp ∧ 1 ≤ s'.sp ∧
+    s'.stack[(s'.sp - 1).toNat]! = t'.stack[(t'.sp - 1).toNat]! :=
+  UgoVerif.Proofs.Shift.return_shift F hk hbp s t ⟨h, hop⟩ r s' r' t' h1 h2
+
+/-- **call_return_partial.**  A whole body inside the covered fragment: `n` covered instructions followed by
+    the callee's RETURN.  From `ShB`-related states (as `prologue_eq_callbind` provides), if neither VM panics
+    or leaves the model and the child meets no uGO error on the way, then after the RETURN the child's loop
+    has returned without error, the parent is back in its caller's frame, heap, globals and module cache are
+    equal, and the child's result slot equals the parent's call-value slot. -/
+theorem call_return_partial (F : FloatOps) (bp k L n : Nat) (hk : 1 ≤ k) (hbp : 1 ≤ bp) (s t : State)
+    (h : ShB bp k L s t) (hc : CoveredRun F L n s) (s1 t1 : State) (r1 : Ctl)
+    (h1 : runSteps F n s = some (.next, s1)) (h2 : runSteps F n t = some (r1, t1))
+    (hop : ∀ op u, exec fetchOp s1 = (.ok op, u) → op = OpReturn)
+    (r r' : Ctl) (s' t' : State) (h3 : exec (step F) s1 = (.ok r, s')) (h4 : exec (step F) t1 = (.ok r', t')) :
+    r = .ret ∧ r' = .next ∧ s'.heap = t'.heap ∧ s'.globals = t'.globals ∧ s'.modules = t'.modules ∧
+    s'.err = none ∧ t'.err = none ∧ s'.frameIndex = 1 ∧ t'.frameIndex = k ∧ t'.sp = bp ∧ 1 ≤ s'.sp ∧
+    s'.stack[(s'.sp - 1).toNat]! = t'.stack[(t'.sp - 1).toNat]! := by
+  rcases steps_shift_partial F bp k L n s t h hc .next r1 s1 t1 h1 h2 with ⟨_, _, hsh⟩ | ⟨hr, _⟩
+  · exact return_shift F bp k L hk hbp s1 t1 hsh hop r r' s' t' h3 h4
+  · cases hr
+
+/-- **result_value_deref** (the epilogue).  `Run` returns `stack[sp-1]` unless it is an `*ObjectPtr`, which
+    it dereferences (vm.go:166-170) — the in-script caller gets the slot value as it is.  So after
+    `return_shift` the two results are EQUAL whenever the returned value is not a raw `*ObjectPtr`, and
+    otherwise the Go side gets the pointee.  The compiler emits GETLOCALPTR / GETFREEPTR only as operands
+    of CLOSURE (compiler_nodes.go:899-901), so no compiled function returns a raw pointer; with
+    hand-made bytecode `GETLOCALPTR 0; RETURN 1` the real VM gives `typeName(f(5)) = "objectPtr"` but
+    `typeName(Invoke(f, 5)) = "int"` (observed on the real code; outside the property's quantifier). -/
+theorem result_value_deref (s : State) (hsp : 1 ≤ s.sp ∧ s.sp ≤ (stackSize : Int)) :
+    ((∀ a, s.stack[(s.sp - 1).toNat]! ≠ .box a) → exec resultValue s = (.ok (s.stack[(s.sp - 1).toNat]!), s)) ∧
+    (∀ a w, s.stack[(s.sp - 1).toNat]! = .box a → s.heap[a]? = some (.box w) → exec resultValue s = (.ok w, s)) :=
+  ⟨resultValue_of_slot s hsp, fun a w hv hw => resultValue_of_box s hsp a w hv hw⟩
+
+/-- what `ShB` says about the observable state: same heap, globals and module cache -/
+theorem shB_observables (bp k L : Nat) (s t : State) (h : ShB bp k L s t) :
+    s.heap = t.heap ∧ s.globals = t.globals ∧ s.modules = t.modules ∧ s.ip = t.ip ∧ t.sp = s.sp + bp := by
+  obtain ⟨N, a, h, _, _⟩ := h
+  exact ⟨h.heap, h.globals, h.modules, h.ip, by rw [h.spT, h.spS]⟩
+
+/-- the opcode list of `frame_shift_partial`, by number (opcodes.go) -/
+theorem coveredOps_eq : coveredOps =
+    [0, 1, 3, 4, 5, 6, 7, 8, 9, 10, 11, 12, 13, 14, 15, 17, 18, 20, 21, 22, 23, 24, 25, 26, 27, 28, 29, 30, 31, 32, 33,
+     40, 41, 42, 16, 19] := by decide
+
+/-- non-vacuity of `ShB`: a VM at `frameIndex = 1` is related to itself with `bp = 0`, `k = 0` -/
+example : ShB 0 0 0 ({ newState #[] #[] #[] 0 0 with frameIndex := 1 } : State)
+    ({ newState #[] #[] #[] 0 0 with frameIndex := 1 } : State) :=
+  ⟨0, 0, { heap := rfl, codes := rfl, consts := rfl, globals := rfl, modules := rfl, numModules := rfl, ip := rfl,
+           spS := rfl, spT := rfl, curS := rfl, curT := rfl, fiS := rfl, fiT := rfl, errS := rfl, errT := rfl,
+           shapeS := ⟨by simp [newState], by simp [newState, emptyFrames]⟩,
+           shapeT := ⟨by simp [newState], by simp [newState, emptyFrames]⟩,
+           kLt := by decide,
+           frame := ⟨rfl, rfl, by show (Array.replicate frameSize ({} : Frame))[0]!.bp = 0; rw [emptyFrames_zero],
+                     by show (Array.replicate frameSize ({} : Frame))[0]!.bp = 0; rw [emptyFrames_zero],
+                     by show (Array.replicate frameSize ({} : Frame))[0]!.handlers = none; rw [emptyFrames_zero],
+                     by show (Array.replicate frameSize ({} : Frame))[0]!.handlers = none; rw [emptyFrames_zero], rfl⟩,
+           stack := fun i hi => by omega }, Int.le_refl _, Nat.le_refl _⟩
+
 /-- The full statement of C14 over the model (NOT proved): for every function value `fa`, every
     accepted argument list, every pool history `w` and every caller state `s` whose module cache
     has its `NumModules` entries (the caller is inside `Run`), invoking `fa` through a child VM
     (`iterInvoke` … 1, any configuration) yields the value or error, the heap, the globals and
     the module cache that the in-script call `CALL numArgs 0` of `fa` from frame k of the caller
-    yields when run to the matching RETURN (`frame_shift`: the callee body in frame 0 / base 0 of the
-    child behaves like frame k of the parent, sharing heap, globals and module cache), together
-    with `initLocals_eq_callbind`.  Proved parts: `acquire_complete`, `release_zeroes`, `pool_fresh`,
-    `pool_acquire_eq_new`, `pool_release_inv`, `acquire_fields`. -/
+    yields when run to the matching RETURN.  Proved parts: `acquire_complete`, `release_zeroes`,
+    `pool_fresh`, `pool_acquire_eq_new`, `pool_release_inv`, `acquire_fields`, `initLocals_eq_callbind`,
+    `prologue_eq_callbind` (the entries), `frame_shift_partial` (one covered instruction).  Missing:
+    CALL / RETURN / THROW and the handler opcodes, the iteration of `frame_shift_partial`
+    over the loop, the epilogue (`resultValue`, `invResOf`) and the host-aware loop `loopI`; as stated
+    (no resource hypothesis) it is false at the stack / frame limits, where the child has more room. -/
 def C14_full : Prop :=
-  initLocals_eq_callbind ∧
   ∀ (F : FloatOps) (cfg : HostCfg) (root s : State) (w : World) (fa : Addr) (args : List V) (depth fuel : Nat),
     s.numModules ≤ s.modules.size → (∀ c ∈ w.idle, ∃ u, c = releaseVM u) →
     ∀ r w' s', iterInvoke (runAt F cfg root depth) cfg root fa args fuel false 1 w s none [] = (r, w', s') →
